@@ -213,6 +213,10 @@ def blend_calls(body):
             at = q.arg_terms(c)
             if len(at) == 2 and at[1][0] == 'tuple' and len(at[1][1]) == 3:
                 out.append((c, at[0], at[1][1]))
+        elif c.fn is None and c.term.get('indirect') is not None and len(c.args) == 3 and 'Rgba' in c.term.get('fnty', ''):
+            # the blend function held as a plain `fn` pointer instead of a boxed closure
+            fterm = res(body).operand(c.term['indirect'])
+            out.append((c, fterm, tuple(q.arg_terms(c))))
     return out
 
 
